@@ -524,7 +524,7 @@ def dangling_fields(P, R, rule='C14.OWN.2'):
         frees = [s for s in f.calls() if s.ev.get('callee') in ('xfree', 'free') and s.ev['args'] and is_var(s.ev['args'][0]) and s.ev['args'][0].get('sc') == 'local']
         for v in sorted({s.ev['args'][0]['name'] for s in frees}):
             def fld(e):
-                return isinstance(e, dict) and e.get('k') == 'mem' and root_var(e) is not None and (root_var(e).get('sc') in ('param', 'static', 'global') or root_var(e).get('t', '').endswith('*'))
+                return isinstance(e, dict) and e.get('k') == 'mem' and root_var(e) is not None and (root_var(e).get('sc') in ('param', 'file_static', 'static_local', 'global') or root_var(e).get('t', '').endswith('*'))
 
             def on_event(st, s, v=v):
                 al, dang = st
